@@ -15,11 +15,16 @@ def asan_run(requests, timeout=3600):
     env = dict(os.environ, ASAN_OPTIONS="detect_leaks=1:halt_on_error=1:abort_on_error=0:symbolize=1", RUST_BACKTRACE="0")
     r = subprocess.run([b["vdriver"]], input=data, env=env, stdout=subprocess.PIPE, stderr=subprocess.PIPE, timeout=timeout)
     replies = []
-    for l in r.stdout.decode("utf-8", "replace").splitlines():
+    # one reply per "\n"-terminated line, in request order. NOT str.splitlines(): that also splits at U+0085, U+2028, U+000B ...,
+    # which hostile inputs contain and serde_json does not escape - replies would be torn apart and misattributed
+    lines = r.stdout.decode("utf-8", "replace").split("\n")
+    for l in lines:
+        if not l:
+            continue
         try:
             replies.append(json.loads(l))
         except Exception:
-            pass
+            replies.append({"harness_error": "unparsable reply line"})
     err = r.stderr.decode("utf-8", "replace")
     reports = []
     if "AddressSanitizer" in err or "LeakSanitizer" in err:
@@ -35,7 +40,7 @@ def miri_run(seeds, count, timeout=7200):
                                cwd=build.HARNESS, env=env, stdout=subprocess.PIPE, stderr=subprocess.PIPE, timeout=timeout)
         except subprocess.TimeoutExpired:
             return {"seed": seed, "status": "timeout"}
-        out = r.stdout.decode("utf-8", "replace").strip().splitlines()
+        out = r.stdout.decode("utf-8", "replace").strip().split("\n")
         summary = None
         for l in out:
             try:
